@@ -501,7 +501,8 @@ def run(ctx):
         "lsp_documents_compared": lsp_compared, "lsp_mismatches": lsp_bad, "lsp_no_notification": lsp_mute,
         "samples": samples,
         "explanation":
-            "PROVED (Props/C03.v, 45 theorems, closed, for ALL syntax trees and symbol tables, no parser involved): the analysis algorithm "
+            "PROVED (Props/C03.v, %d theorems, closed, for ALL syntax trees and symbol tables, no parser involved): the analysis algorithm " % len(ctx.cov.get("theorems", []))
+            +
             "(models of table::build, table::analyze, ast::error_container, AnalyzedSource::errors) against a declarative static semantics of SPL "
             "(Spec/Typing.v): no false positive for declarations (C03_build_sound, with the table mapping every declared name to its own "
             "declaration: C03_build_table) and for bodies (C03_analyze_sound); no false negative for bodies (C03_analyze_complete; "
@@ -514,7 +515,7 @@ def run(ctx):
             "fail if the collected ranges lie in the token vector (C03_ranges_inside, hypothesis explicit).  With C04's round-trip theorem: every "
             "TEXT that lexes to the tokens of a well-typed abstract program (comments in any gap) gets no diagnostic (C03_no_false_positive; the "
             "lexer's output is a hypothesis), and every text that lexes to a program with exactly one semantic fault in a body gets exactly that one "
-            "diagnostic with the byte range of its tokens (C03_single_semantic_fault).  NOT PROVED: C03_full_statement - program-level "
+            "diagnostic with the byte range of its tokens (C03_single_semantic_fault, C03_statement_semantic).  NOT PROVED: C03_full_statement - program-level "
             "single-fault statements for the 10 declaration rules and the missing-token faults, the identification of node ranges with the "
             "culprit's tokens for faulty programs, and the lexer side (text of a layout -> tokens); these are validated below.  VALIDATED by this run: the models agree with the "
             "implementation on every generated document (extracted judge) and on a sample in the kernel; the oracle checks on the "
